@@ -193,6 +193,18 @@ pub fn run() {
                 drop(tx1);
                 json!({"carrier": carrier, "before": s_before, "send": r.unwrap_or_else(|| "hang".into())})
             },
+            // channel A's receiver is gone; a message carrying channel B's RECEIVER is sent on A and refused: B's receiving end went
+            // down with the message, so sends on B fail from then on (they must not succeed, and not block)
+            "carrier_fail" => {
+                let (atx, arx) = platform::channel().unwrap();
+                let (btx, brx) = platform::channel().unwrap();
+                drop(arx);
+                let carrier = res_str(atx.send(&tagged(4, 0, len), vec![OsIpcChannel::Receiver(brx)], vec![]).map_err(std::io::Error::from));
+                let b2 = btx.clone();
+                let small = with_watchdog(8_000, move || res_str(b2.send(&tagged(4, 1, 40), vec![], vec![]).map_err(std::io::Error::from)));
+                let big = with_watchdog(8_000, move || res_str(btx.send(&tagged(4, 2, 3 << 20), vec![], vec![]).map_err(std::io::Error::from)));
+                json!({"carrier": carrier, "small": small.unwrap_or_else(|| "hang".into()), "big": big.unwrap_or_else(|| "hang".into())})
+            },
             // the receiving end sits in a one-shot server that is dropped without ever accepting, after the client has connected
             "server_dropped" => {
                 let (server, name) = platform::OsIpcOneShotServer::new().unwrap();
